@@ -19,6 +19,10 @@ TraceNext ==
           /\ IF e.pan # 0 THEN Fail("C11/panic/New") ELSE ObsNew(e)
           /\ skip' = (bad' # "")
           /\ (bad' # "" => PrintT(<<"BAD", e.sid, e.i, bad'>>))
+     ELSE IF e.ev = "NewFail" THEN
+          /\ ObsNewFail(e)
+          /\ skip' = (bad' # "")
+          /\ (bad' # "" => PrintT(<<"BAD", e.sid, e.i, bad'>>))
      ELSE IF skip THEN UNCHANGED monvars /\ skip' = TRUE
      ELSE /\ Obs(e)
           /\ skip' = (bad' # "")
